@@ -197,7 +197,7 @@ func init() {
 			Rule:        "case = generated scenario (1-3 engine configs sharing stores; ingest/flush/merge history) x generated queries; a query is non-trivial when at least one stored row is required by the reference semantics (matches bloom+regex and its own partition/minmax facts satisfy the prefilter); distinct = distinct (scenario, query JSON)",
 			Assumptions: []string{"reference semantics written from README/FILE_FORMAT.md over encoding/json (harness/refsem)", "field:token membership key = path + \"::\" + token", "regex patterns drawn from a fixed family"},
 			Floors:      map[string]int64{"queries": 50, "rows_required": 20}},
-		Cases: func(t string) int { return nQueries(t, 64, 3000) },
+		Cases: func(t string) int { return nQueries(t, 128, 3000) },
 		Run:   runC01,
 	})
 	Register(&Check{
@@ -205,14 +205,14 @@ func init() {
 			Rule:        "same scenario stream as C01 with high false-positive rates over-represented; a query is non-trivial when some stored row does not match it while its block is a candidate (so only row verification keeps it out) or a prefilter is present; distinct = distinct (scenario, query JSON)",
 			Assumptions: []string{"reference semantics in harness/refsem", "must(block)=strict evaluation over block metadata, may(block)=no referenced metadata missing"},
 			Floors:      map[string]int64{"queries": 50, "rows_returned": 20}},
-		Cases: func(t string) int { return nQueries(t, 64, 3000) },
+		Cases: func(t string) int { return nQueries(t, 96, 3000) },
 		Run:   runC02,
 	})
 }
 
 func runC01(rc *RunCtx, i int) {
 	r := rc.CaseRand(i)
-	o := world.BuildOpts{MoreMerge: i%3 == 0, HighFPR: i%2 == 0, ExtFiles: i%5 == 0, BigRegion: i%40 == 5}
+	o := world.BuildOpts{MoreMerge: i%3 == 0, HighFPR: i%2 == 0, ExtFiles: i%5 == 0, BigRegion: i%80 == 5}
 	c, err := buildDP(rc, i, o, false)
 	if err != nil {
 		rc.Violate(i, "scenario-failed", "", "fault-free scenario failed: "+err.Error(), nil)
@@ -310,7 +310,7 @@ func c01Signature(q *bs.Query, rec *world.RowRec) string {
 
 func runC02(rc *RunCtx, i int) {
 	r := rc.CaseRand(i)
-	o := world.BuildOpts{MoreMerge: i%3 == 1, HighFPR: true}
+	o := world.BuildOpts{MoreMerge: i%3 == 1, HighFPR: true, ExtFiles: i%4 == 0}
 	c, err := buildDP(rc, i, o, false)
 	if err != nil {
 		rc.Violate(i, "scenario-failed", "", "fault-free scenario failed: "+err.Error(), nil)
